@@ -13,6 +13,7 @@ from vlib.coqlit import *
 
 ID = "C17"
 COQ_PROPS = "Props/C17.v"
+COQ_EXTRA_TARGETS = ["Orient/Corr.vo"]      # the correspondence glue is not a dependency of the theorems
 THEOREMS = ["C17_data", "C17_affine", "C17_codes", "C17_axis_aligned", "C17_errors"]
 ALLOWED_AXIOMS = []
 RULE = ("valid: requested code (48, random letter case, incl. the non-ASCII characters that str.upper maps into LRAPSI) x input affine "
